@@ -2,6 +2,7 @@
 // Oracle: an independent scanner (find the opening long bracket of level n, skip one end-of-line of the input's
 // policy, find the FIRST closing long bracket of the same level); content = text between.
 #include <tao/pegtl.hpp>
+#include <tao/pegtl/buffer_input.hpp>
 #include <tao/pegtl/contrib/raw_string.hpp>
 
 #include "harness/rc_util.hpp"
@@ -103,6 +104,20 @@ static const char*& the_base()
    return b;
 }
 
+struct one_byte_reader
+{
+   const char* p;
+   const char* e;
+   std::size_t operator()( char* b, const std::size_t n )
+   {
+      if( p == e || n == 0 ) {
+         return 0;
+      }
+      *b = *p++;
+      return 1;
+   }
+};
+
 template< typename RS >
 struct content_action
 {
@@ -142,7 +157,7 @@ static void check_one( const char* name, const std::string& input, char O, char 
    const ref_result want = lua_ref( input, O, M, C, policy, allowed );
    char* buf = static_cast< char* >( std::malloc( input.size() ? input.size() : 1 ) );
    std::memcpy( buf, input.data(), input.size() );
-   for( int ctx = 0; ctx < 2; ++ctx ) {
+   for( int ctx = 0; ctx < 3; ++ctx ) {
       R.eval();
       capture& cap = the_capture();
       cap = capture();
@@ -150,6 +165,29 @@ static void check_one( const char* name, const std::string& input, char O, char 
       int k;
       std::size_t consumed = 0;
       try {
+         if( ctx == 2 ) {
+            // the same literal arriving one byte per read through an incremental input (result and consumption only: the content
+            // action's pointers refer to the input's own buffer)
+            p::buffer_input< one_byte_reader, Eol, const char*, 4 > bin( "rs", input.size() + 8, one_byte_reader{ buf, buf + input.size() } );
+            const char* base = buf;
+            try {
+               k = p::parse< RS, fam< RS >::template type, p::normal, p::apply_mode::action, p::rewind_mode::required >( bin, cap, base ) ? 1 : 0;
+            }
+            catch( ... ) {
+               k = 3;
+            }
+            consumed = bin.byte();
+            if( want.matches ? ( k != 1 || consumed != want.consumed ) : ( k != 0 || consumed != 0 ) ) {
+               const std::string sig = std::string( want.matches ? "match" : want.saw_open ? "unterminated" : "no-open" ) + ":buffer_input:" + name;
+               const std::string kase = vf::jobj().str( "inst", name ).str( "hex", vf::hexs( input ) ).str( "text", vf::show( input ) ).done();
+               const std::string d = std::string( name ) + " on '" + vf::show( input ) + "' read through a buffer_input, one byte per read: result " + std::to_string( k ) + " consumed " + std::to_string( consumed ) + ", expected " + ( want.matches ? "a match of " + std::to_string( want.consumed ) + " bytes" : std::string( "local failure without consumption" ) );
+               if( g_last ) {
+                  g_last->set( sig, kase, d );
+               }
+               R.fail( sig, kase, d );
+            }
+            continue;
+         }
          p::memory_input< p::tracking_mode::eager, Eol, const char* > in( buf, buf + input.size(), "rs" );
          const char* base = buf;
          if( ctx == 0 ) {
@@ -216,6 +254,8 @@ using rs_lua_alpha = p::raw_string< '[', '=', ']', content_alpha >;
 using rs_lua_notx = p::raw_string< '[', '=', ']', content_not_x >;
 using rs_paren = p::raw_string< '(', '-', ')' >;
 using rs_q = p::raw_string< '<', '\n', '>' >;     // the marker is an end-of-line character
+using rs_hi = p::raw_string< '\xab', '=', '\xbb' >;   // bracket characters with the high bit set (negative as char)
+using rs_him = p::raw_string< '[', '\xfe', ']' >;    // marker with the high bit set
 
 struct inst
 {
@@ -240,6 +280,8 @@ static const inst insts[] = {
    INST( "paren/lf_crlf", rs_paren, lf_crlf, 0, '(', '-', ')', nullptr, "(-)\n\rx" ),
    INST( "paren/cr", rs_paren, cr, 2, '(', '-', ')', nullptr, "(-)\n\rx" ),
    INST( "q/lf", rs_q, lf, 1, '<', '\n', '>', nullptr, "<\n>\rx=" ),
+   INST( "highbit-brackets/lf_crlf", rs_hi, lf_crlf, 0, '\xab', '=', '\xbb', nullptr, "\xab=\xbb\n\rx" ),
+   INST( "highbit-marker/lf", rs_him, lf, 1, '[', '\xfe', ']', nullptr, "[\xfe]\n\rx" ),
 };
 
 static void run_all( const std::string& in_over_lua_alphabet, int which = -1 )
